@@ -108,9 +108,9 @@ func (g *cgen) submitEIP() {
 	}
 	k := g.rnd(100)
 	switch {
-	case k < 55: // extend the run
+	case k < 62: // extend the run
 		g.submit(TxRef{S: s, N: uint32(next), P: g.price(s), Tag: g.freshTag()}, deliver)
-	case k < 67: // leave a gap
+	case k < 70: // leave a gap
 		g.submit(TxRef{S: s, N: uint32(next) + 1 + uint32(g.rnd(3)), P: g.price(s), Tag: g.freshTag()}, deliver)
 	case k < 90 && len(nonces) > 0: // replacement attempt around the threshold
 		n := nonces[g.rnd(len(nonces))]
@@ -284,7 +284,11 @@ func (g *cgen) adversarialAdd() {
 	case 0: // a transaction that is already on chain, with a verification height of our choosing
 		var on []*mtx
 		for h := 1; h < len(g.r.chain); h++ {
-			on = append(on, g.r.chain[h]...)
+			for _, m := range g.r.chain[h] {
+				if m.ref.S != -2 { // not the funding transfers: they share gas price 0 (sort ties)
+					on = append(on, m)
+				}
+			}
 		}
 		if len(on) > 0 {
 			g.r.do(Op{K: "add", Tx: &on[g.rnd(len(on))].ref, VH: uint32(g.rnd(int(cur) + 2)), VN: uint64(g.rnd(5))})
@@ -335,17 +339,17 @@ func generate(c *hx.Ctx, caseNo, i int) {
 	for k := 0; k < nops; k++ {
 		x := g.rnd(100)
 		switch {
-		case x < 36:
+		case x < 40:
 			g.submitEIP()
-		case x < 44:
+		case x < 46:
 			g.submitOrd()
-		case x < 48:
+		case x < 49:
 			if len(r.pend) > 0 {
 				r.do(Op{K: "deliver", I: g.rnd(len(r.pend))})
 			}
 		case x < 54:
 			r.do(Op{K: "get", BC: g.p(60), H: g.heightChoice()})
-		case x < 72:
+		case x < 68:
 			r.do(Op{K: "propose"})
 			if len(r.lastProposal) > 0 && g.p(75) {
 				txs := refsOf(r.lastProposal)
@@ -359,9 +363,9 @@ func generate(c *hx.Ctx, caseNo, i int) {
 					g.commit(txs)
 				}
 			}
-		case x < 78:
+		case x < 74:
 			g.foreignBlock()
-		case x < 86:
+		case x < 84:
 			g.events(g.p(70), g.p(70))
 		case x < 90:
 			g.verifyList()
@@ -404,7 +408,7 @@ func generate(c *hx.Ctx, caseNo, i int) {
 }
 
 // fixedScripts are deterministic scenarios run on every seed.
-func fixedScripts() []Script {
+func fixedScripts(quick bool) []Script {
 	fund := Op{K: "commit", Txs: []TxRef{{S: -2, Tag: 0}, {S: -2, Tag: 1}, {S: -2, Tag: 2}}}
 	a0 := TxRef{S: 0, N: 0, P: 100, Tag: 1}
 	a1 := TxRef{S: 0, N: 1, P: 100, Tag: 2}
@@ -433,5 +437,19 @@ func fixedScripts() []Script {
 		ops = append(ops, sub(t)...)
 	}
 	ops = append(ops, Op{K: "propose"}, Op{K: "verifylist", Txs: []TxRef{a0, a1up, a3, b0, z0up, oneUp, oneUp}, H: 1})
-	return []Script{{KeySeed: 35, MaxBlk: 20, MaxTx: 60000, Profile: "fixed", Ops: ops}}
+	out := []Script{{KeySeed: 35, MaxBlk: 20, MaxTx: 60000, Profile: "fixed", Ops: ops}}
+	if !quick {
+		// CleanStaledEIPTx acts only above MAX_LIMITATION (10000) pool entries: thorough tier only
+		var st []Op
+		st = append(st, fund, Op{K: "ivadd", H: 1}, Op{K: "poolclean", H: 1, Txs: fund.Txs})
+		for _, t := range []TxRef{a0, a1, b0} {
+			st = append(st, sub(t)...)
+		}
+		st = append(st, Op{K: "bulk", Cnt: 10001, VH: 1},
+			Op{K: "poolclean", H: 50}, // 1+50 > 50: nothing is stale yet
+			Op{K: "poolclean", H: 51}, // both senders' lists are dropped
+			Op{K: "propose"})
+		out = append(out, Script{KeySeed: 36, MaxBlk: 20, MaxTx: 60000, Profile: "fixed-staled", Ops: st})
+	}
+	return out
 }
